@@ -3,6 +3,8 @@
 Engine E2: every labelled digraph up to a node bound is loaded into the real
 database (many graphs = many lexicons per database) and every taxonomy function is
 compared with the plain-Python reference in wnmc.graphs.Ref."""
+import itertools
+
 import wn
 import wn.taxonomy as tx
 
@@ -43,6 +45,15 @@ def build_lexicon(lid, g):
         hypo = set(edges)
     for (i, j) in sorted(hypo):
         rels[i].append(mk.rel(f'{lid}-{j}', 'instance_hyponym' if (j, i) in inst else 'hyponym'))
+    if g.get('decoy'):
+        # relations of other types (some sorting before 'hypernym' in the lookup table) that the
+        # taxonomy functions must ignore: the reverse of every hypernym edge and a full clique
+        for (i, j) in edges:
+            rels[j].append(mk.rel(f'{lid}-{i}', 'also'))
+        for i in range(n):
+            for j in range(n):
+                if i != j:
+                    rels[i].append(mk.rel(f'{lid}-{j}', 'antonym' if (i + j) % 2 else 'holo_part'))
     syns = [mk.synset(f'{lid}-{i}', pos=pos[i], relations=rels[i]) for i in range(n)]
     return mk.lexicon(lid, synsets=syns), edges, hypo
 
@@ -272,6 +283,18 @@ def family_graphs(tier):
                     if n <= 4:
                         continue        # covered exhaustively
                     out.append({'n': n, 'edges': [list(e) for e in e2]})
+    # two roots X, Y; a and b each reach both roots by chains of length 1 or 2: several lowest common
+    # hypernyms of equal depth at different distances from the two synsets
+    for pa, qa, pb, qb in itertools.product((1, 2), repeat=4):
+        e2, n = [], 4          # X=0, Y=1, a=2, b=3
+        for src, dst, ln in ((2, 0, pa), (2, 1, qa), (3, 0, pb), (3, 1, qb)):
+            prev = src
+            for _ in range(ln - 1):
+                e2.append([prev, n])
+                prev = n
+                n += 1
+            e2.append([prev, dst])
+        out.append({'n': n, 'edges': e2})
     # shortcut edges on a chain: c0 -> c1 -> ... -> ck plus one skip edge
     for k in (4, 5):
         for i in range(k):
@@ -300,6 +323,9 @@ def space(tier, seed):
             if tier == 'thorough' or bin(sub).count('1') == 1 or sub == h:
                 gs.append({'n': 3, 'loops': False, 'h': h, 'inst': sub})
             sub = (sub - 1) & h
+    # decoy relation types in some databases (a process-wide cache of lookup rowids would go stale)
+    for h in range(1 << 6):
+        gs.append({'n': 3, 'loops': False, 'h': h, 'decoy': True})
     # hyponym declaration modes (leaves read declared hyponyms)
     for mode in ('none', 'skew'):
         for n in (2, 3):
